@@ -22,6 +22,7 @@ type Node struct {
 	A []*Node // children
 	T types.Type
 	Fn interface{} // *ssa.Function of a static callee (call nodes)
+	Ord int        // >1: the n-th syntactically identical call in its function (rendered name@n)
 	s string
 }
 
@@ -63,6 +64,9 @@ func (n *Node) render(d int) string {
 	case "field":
 		return r(0) + "." + n.L
 	case "call":
+		if n.Ord > 1 {
+			return n.L + "@" + itoa(n.Ord) + "(" + all(0) + ")"
+		}
 		return n.L + "(" + all(0) + ")"
 	case "dyncall":
 		return "dyn[" + r(0) + "](" + all(1) + ")"
@@ -150,7 +154,7 @@ func (n *Node) Subst(bind []*Node) *Node {
 	if !changed {
 		return n
 	}
-	return &Node{K: n.K, L: n.L, A: na, T: n.T, Fn: n.Fn}
+	return &Node{K: n.K, L: n.L, A: na, T: n.T, Fn: n.Fn, Ord: n.Ord}
 }
 
 // Walk calls f on every node of the tree.
@@ -190,6 +194,18 @@ func (n *Node) Calls() []string {
 		}
 	})
 	return out
+}
+
+func itoa(i int) string {
+	if i == 0 {
+		return "0"
+	}
+	var b []byte
+	for i > 0 {
+		b = append([]byte{byte('0' + i%10)}, b...)
+		i /= 10
+	}
+	return string(b)
 }
 
 func atoi(s string) int {
